@@ -169,7 +169,9 @@ uint8_t RDMCommand::MessageLength() const {
  * Set the parameter data
  */
 void RDMCommand::SetParamData(const uint8_t *data, unsigned int length) {
-  m_data_length = length;
+  // A NULL pointer supplies no bytes: don't record a length we hold no data
+  // for, or Pack(), operator== and ToString() would read from NULL.
+  m_data_length = data ? length : 0;
   if (m_data_length > 0 && data != NULL) {
     if (m_data) {
       delete[] m_data;
